@@ -183,7 +183,14 @@ fn gen_case(i: usize, rng: &mut Rng) -> (ConnCase, String) {
                                 " Host: folded-first\r\n\r\n", "\t\r\nHost: x\r\n\r\n", " \r\n\r\n"]);
             // ... in every protocol version the request line can name
             let ver = *rng.pick(&["1.1", "1.1", "1.0", "0.9", "2.0", "3.0", "", "1", "1.", ".1", "11"]);
-            bytes.extend_from_slice(format!("POST /x HTTP/{}\r\n{}", ver, v).as_bytes());
+            if rng.chance(1, 3) {
+                // ... and request lines with empty, missing or surplus fields
+                let rl = *rng.pick(&["GET  HTTP/1.1", " / HTTP/1.1", "GET / ", "  ", " ", "GET  / HTTP/1.1", "GET /\tHTTP/1.1", " GET / HTTP/1.1", "GET / HTTP/1.1 ", "GET / HTTP/", "GET / http/1.1",
+                                     "/ HTTP/1.1", "  HTTP/1.1", "GET  HTTP/1.0", "CONNECT  HTTP/1.1", "GET / HTTP/1.1\t", "GET /  ", "\tGET / HTTP/1.1"]);
+                bytes.extend_from_slice(format!("{}\r\nHost: x\r\n\r\n", rl).as_bytes());
+            } else {
+                bytes.extend_from_slice(format!("POST /x HTTP/{}\r\n{}", ver, v).as_bytes());
+            }
             if rng.chance(1, 2) {
                 bytes.extend_from_slice(b"GET /next HTTP/1.1\r\nHost: x\r\n\r\n");
             }
